@@ -176,15 +176,21 @@ func (c *compiler) evalUserFunction(node *userFunction, args []ast.Expression) (
 		return nil, fmt.Errorf("too few arguments in call to function (%d for %d)", len(args), len(node.Parameters))
 	}
 
-	c.ctx = c.ctx.New()
-	for i, p := range node.Parameters {
+	// evaluate every argument in the caller's scope before binding any parameter
+	vals := make([]interface{}, len(node.Parameters))
+	for i := range node.Parameters {
 		a := args[i]
 		v, err := c.evalExpression(a)
 		if err != nil {
 			return nil, err
 		}
 
-		c.ctx.Set(p.Value, v)
+		vals[i] = v
+	}
+
+	c.ctx = c.ctx.New()
+	for i, p := range node.Parameters {
+		c.ctx.Set(p.Value, vals[i])
 	}
 
 	return c.evalBlockStatement(node.Block)
